@@ -36,20 +36,22 @@ func specBE32(b []byte, at int) uint32 {
 //@ transparent baseEbp.FragmentFlag baseEbp.SegmentFlag baseEbp.SapFlag baseEbp.GroupingFlag baseEbp.TimeFlag baseEbp.ExtensionFlag
 
 //@ func readComcastEbp(data []byte) (ebp *comcastEbp, err error)
-//@   props C12
+//@   props C12 C05
 //@   paths
-//@   requires specWFComcast(data)
-//@   ensures err == nil && ebp != nil && fresh(ebp)
-//@   ensures ebp.DataFieldTag == 0xa9 && ebp.DataFieldLength == data[1] && ebp.DataFlags == data[2]
-//@   ensures data[2]%2 == 1 ==> ebp.ExtensionFlags == data[3]
-//@   ensures data[2]%2 == 0 ==> ebp.ExtensionFlags == 0
-//@   ensures (data[2]/32)%2 == 1 ==> ebp.SapType == data[specCcSapAt(data)]
-//@   ensures (data[2]/32)%2 == 0 ==> ebp.SapType == 0
-//@   ensures (data[2]/16)%2 == 1 ==> len(ebp.Grouping) == 1 && ebp.Grouping[0] == data[specCcGrpAt(data)]
-//@   ensures (data[2]/16)%2 == 0 ==> len(ebp.Grouping) == 0
-//@   ensures (data[2]/8)%2 == 1 ==> ebp.TimeSeconds == specBE32(data, specCcTimeAt(data)) && ebp.TimeFraction == specBE32(data, specCcTimeAt(data)+4)
-//@   ensures (data[2]/8)%2 == 0 ==> ebp.TimeSeconds == 0 && ebp.TimeFraction == 0
-//@   ensures len(ebp.ReservedBytes) == len(data)-specCcRsvAt(data) && (len(ebp.ReservedBytes) > 0 ==> &ebp.ReservedBytes[0] == &data[specCcRsvAt(data)])
+//@   ensures specWFComcast(data) ==> err == nil && ebp != nil && fresh(ebp)
+//@   ensures specWFComcast(data) ==> ebp.DataFieldTag == 0xa9 && ebp.DataFieldLength == data[1] && ebp.DataFlags == data[2]
+//@   ensures specWFComcast(data) && data[2]%2 == 1 ==> ebp.ExtensionFlags == data[3]
+//@   ensures specWFComcast(data) && data[2]%2 == 0 ==> ebp.ExtensionFlags == 0
+//@   ensures specWFComcast(data) && (data[2]/32)%2 == 1 ==> ebp.SapType == data[specCcSapAt(data)]
+//@   ensures specWFComcast(data) && (data[2]/32)%2 == 0 ==> ebp.SapType == 0
+//@   ensures specWFComcast(data) && (data[2]/16)%2 == 1 ==> len(ebp.Grouping) == 1 && ebp.Grouping[0] == data[specCcGrpAt(data)]
+//@   ensures specWFComcast(data) && (data[2]/16)%2 == 0 ==> len(ebp.Grouping) == 0
+//@   ensures specWFComcast(data) && (data[2]/8)%2 == 1 ==> ebp.TimeSeconds == specBE32(data, specCcTimeAt(data)) && ebp.TimeFraction == specBE32(data, specCcTimeAt(data)+4)
+//@   ensures specWFComcast(data) && (data[2]/8)%2 == 0 ==> ebp.TimeSeconds == 0 && ebp.TimeFraction == 0
+//@   ensures specWFComcast(data) ==> len(ebp.ReservedBytes) == len(data)-specCcRsvAt(data) && (len(ebp.ReservedBytes) > 0 ==> &ebp.ReservedBytes[0] == &data[specCcRsvAt(data)])
+//@   ensures len(data) < 2 ==> err == gots.ErrNoPayload
+//@   ensures err != nil ==> ebp == nil
+//@   ensures err == nil ==> ebp != nil && fresh(ebp)
 //@   modifies nothing
 
 // ---- flags and values shared by both flavours
@@ -92,24 +94,40 @@ func specBE32(b []byte, at int) uint32 {
 //@     invariant forall j in 0..rangeindex+1 :: ebp.Grouping[j] != 0x1c && ebp.Grouping[j] != 0x1d
 //@     decreases len(ebp.Grouping) - rangeindex
 
-// The CableLabs reader is not verified (its grouping-chain loop has no invariant yet); the
-// dispatcher below relies only on this assumed, deliberately weak contract.
+// The CableLabs reader: total on every byte string (after repair 80a5320), grouping chain bounded
+// by the data field, mandatory fields exact.
+//@ transparent cableLabsEbp.PartitionFlag
+
 //@ func readCableLabsEbp(data []byte) (ebp *cableLabsEbp, err error)
-//@   trusted
-//@   ensures err == nil ==> ebp != nil
+//@   props C12 C05
+//@   ensures len(data) < 2 ==> err == gots.ErrNoPayload && ebp == nil
+//@   ensures err == nil ==> ebp != nil && fresh(ebp) && ebp.DataFieldTag == data[0] && ebp.DataFieldLength == data[1]
+//@   ensures err == nil && data[1] > 0 ==> len(data) >= int(data[1])+2 && int(data[1])+2 >= 7 && ebp.DataFlags == data[6] && ebp.FormatIdentifier == uint32(data[2])<<24|uint32(data[3])<<16|uint32(data[4])<<8|uint32(data[5])
+//@   ensures err != nil ==> ebp == nil
+//@   ensures len(data) >= 2 && data[1] > 0 && len(data) < int(data[1])+2 ==> err == gots.ErrInvalidEBPLength
 //@   modifies nothing
+//@   loop 1 (groupExtFlag bool, index int, ebp *cableLabsEbp, end int)
+//@     invariant ebp != nil && fresh(ebp) && 0 <= index && index <= end && end <= len(data) && end == int(data[1])+2 && data[1] > 0
+//@     invariant ebp.DataFieldTag == data[0] && ebp.DataFieldLength == data[1] && ebp.DataFlags == data[6] && ebp.FormatIdentifier == uint32(data[2])<<24|uint32(data[3])<<16|uint32(data[4])<<8|uint32(data[5])
+//@     invariant fresh(ebp.Grouping)
+//@     decreases end - index
 
 func ccOf(e EncoderBoundaryPoint) *comcastEbp {
 	p, _ := e.(*comcastEbp)
 	return p
 }
 
+func clOf(e EncoderBoundaryPoint) *cableLabsEbp {
+	p, _ := e.(*cableLabsEbp)
+	return p
+}
+
 //@ func ReadEncoderBoundaryPoint(data []byte) (ebp EncoderBoundaryPoint, err error)
-//@   props C12
-//@   requires len(data) > 0 && data[0] == 0xa9 ==> specWFComcast(data)
+//@   props C12 C05
 //@   ensures len(data) == 0 ==> ebp == nil && err == gots.ErrNoEBPData
 //@   ensures len(data) > 0 && data[0] != 0xa9 && data[0] != 0xdf ==> ebp == nil && err == gots.ErrUnrecognizedEbpType
-//@   ensures len(data) > 0 && data[0] == 0xa9 ==> err == nil && ccOf(ebp) != nil && ccOf(ebp).DataFieldLength == data[1] && ccOf(ebp).DataFlags == data[2]
+//@   ensures len(data) > 0 && data[0] == 0xa9 && specWFComcast(data) ==> err == nil && ccOf(ebp) != nil && ccOf(ebp).DataFieldLength == data[1] && ccOf(ebp).DataFlags == data[2]
+//@   ensures len(data) > 0 && data[0] == 0xdf && err == nil ==> clOf(ebp) != nil && clOf(ebp).DataFieldLength == data[1]
 //@   modifies nothing
 
 var _ = gots.ErrNoPayload
